@@ -2,8 +2,12 @@
 package rules
 
 import (
+	"encoding/json"
 	"go/token"
 	"go/types"
+	"os"
+	"path/filepath"
+	"sync"
 
 	"golang.org/x/tools/go/ssa"
 
@@ -57,12 +61,74 @@ func funcObj(c *engine.Ctx, pkg, name string) *types.Func {
 	return m
 }
 
+// field resolves a struct field by name. When the name no longer exists (an unexported field was renamed), the field
+// is re-identified by its type: golden/field_types.json records the type each anchored field had on the confirmed
+// tree, and a struct that still has exactly one field of that type yields it. Only if that fails is the anchor missing.
 func field(c *engine.Ctx, pkg, typ, name string) *types.Var {
+	key := pkg + "." + typ + "." + name
 	f := c.P.Field(pkg, typ, name)
-	if f == nil {
-		c.Missing(pkg+"."+typ+"."+name, "field %s.%s.%s not found", pkg, typ, name)
+	if f != nil {
+		recordFieldType(key, f)
+		return f
 	}
-	return f
+	if want, ok := fieldTypes()[key]; ok {
+		if n := c.P.Named(pkg, typ); n != nil {
+			if st, ok := n.Underlying().(*types.Struct); ok {
+				var hit []*types.Var
+				for i := 0; i < st.NumFields(); i++ {
+					if typeKey(st.Field(i).Type()) == want {
+						hit = append(hit, st.Field(i))
+					}
+				}
+				if len(hit) == 1 {
+					return hit[0]
+				}
+			}
+		}
+	}
+	c.Missing(key, "field %s.%s.%s not found (and not re-identifiable by its type)", pkg, typ, name)
+	return nil
+}
+
+func typeKey(t types.Type) string {
+	return types.TypeString(t, func(p *types.Package) string { return p.Path() })
+}
+
+var (
+	fieldTypesOnce sync.Once
+	fieldTypesTab  map[string]string
+	fieldTypesSeen = map[string]string{}
+	fieldTypesMu   sync.Mutex
+)
+
+func fieldTypes() map[string]string {
+	fieldTypesOnce.Do(func() {
+		fieldTypesTab = map[string]string{}
+		if b, err := os.ReadFile(filepath.Join(verifDirOf(), "golden", "field_types.json")); err == nil {
+			_ = json.Unmarshal(b, &fieldTypesTab)
+		}
+	})
+	return fieldTypesTab
+}
+
+func recordFieldType(key string, f *types.Var) {
+	if os.Getenv("FRPSA_WRITE_GOLDEN") != "1" {
+		return
+	}
+	fieldTypesMu.Lock()
+	defer fieldTypesMu.Unlock()
+	fieldTypesSeen[key] = typeKey(f.Type())
+	// merge with what is on disk (each property run contributes its anchors)
+	path := filepath.Join(verifDirOf(), "golden", "field_types.json")
+	cur := map[string]string{}
+	if b, err := os.ReadFile(path); err == nil {
+		_ = json.Unmarshal(b, &cur)
+	}
+	for k, v := range fieldTypesSeen {
+		cur[k] = v
+	}
+	b, _ := json.MarshalIndent(cur, "", " ")
+	_ = os.WriteFile(path, b, 0o644)
 }
 
 // callMatcher matches call results of the given callees.
